@@ -228,13 +228,19 @@ Section MoveCtor.
   Notation COH := (PropSim.COH fn).
   Notation abs_tree := PropSim.abs_tree.
 
+  (* the subscribers of the private moved signal never act (the link invariant says so: QUIET) *)
+  Lemma quiet_moved w p t pos ser label act : pinv w -> owns w p KMoved t -> slot_at w t pos ser (SObs label act) -> act = None.
+  Proof.
+    intros Hinv Ho Hs. destruct (pi_quiet _ _ _ _ _ _ _ Hinv p KMoved t pos ser _ Ho (or_intror eq_refl) Hs) as [(l' & E)|(b & l & E)]; [inversion E; reflexivity|discriminate E].
+  Qed.
+
   Definition rn (src dst q : nat) : nat := if Nat.eqb q src then dst else q.
 
   (* what a move construction leaves behind: the destination has the value and the updater of the source, the source keeps its value
      and has no updater, no subscription appears or disappears, every binding is alive as before with the same evaluator and its
      tree abstracts to the old abstraction with src renamed to dst *)
   Lemma movector_shape fuel w src dst w' :
-    pinv w -> NOACT w -> NOEMIT w -> step1 fn rtl fuel w (PMoveCtor src dst) = (w', None) ->
+    pinv w -> NOEMIT w -> step1 fn rtl fuel w (PMoveCtor src dst) = (w', None) ->
     exists s0 dn sn,
       lookup (w_props w) src = Some s0 /\ lookup (w_props w) dst = None /\ src <> dst /\
       pr_value dn = pr_value s0 /\ pr_updater dn = pr_updater s0 /\ pr_value sn = pr_value s0 /\ pr_updater sn = None /\
@@ -252,7 +258,7 @@ Section MoveCtor.
          b_target x' = option_map (rn src dst) (b_target x) /\ leaves (b_root x') = map (mvl src dst) (leaves (b_root x))) /\
       w_evps w' = w_evps w /\ length (w_binds w') = length (w_binds w).
   Proof.
-    intros Hinv Hna HNE H. cbn [step1] in H.
+    intros Hinv HNE H. cbn [step1] in H.
     destruct (lookup (w_props w) src) as [s0|] eqn:Hs; [|discriminate H].
     destruct (lookup (w_props w) dst) as [d0|] eqn:Hd; [discriminate H|].
     assert (Hne : src <> dst) by (intros ->; congruence).
@@ -285,7 +291,8 @@ Section MoveCtor.
     assert (Tw : forall t, tview wc t = tview w t) by (intros t; rewrite T; unfold wa, fixtarget; destruct (pr_updater d) as [bu|]; [destruct (get_bind w1 bu)|]; reflexivity).
     assert (SKc' : SKB wa wc /\ w_evps wc = w_evps wa).
     { destruct (emit_moved_skel fn rtl (set_helper fn rtl fuel) wa (pr_moved s0) dst dst wc) as (A1 & _ & _ & A4); [|exact E2|auto].
-      intros t pos ser label act _ Hsl. apply (Hna t pos ser label act). destruct Hsl as (sl & fr & al & Et & En). exists sl, fr, al. split; [|exact En].
+      intros t pos ser label act Eot Hsl. apply (quiet_moved w src t pos ser label act Hinv); [exists (psigs_of s0); split; [exact Ps|exact Eot]|].
+      destruct Hsl as (sl & fr & al & Et & En). exists sl, fr, al. split; [|exact En].
       rewrite <- Et. unfold wa, fixtarget. destruct (pr_updater d) as [bu|]; [destruct (get_bind w1 bu)|]; reflexivity. }
     destruct SKc' as [SKc Evc].
     (* every binding: alive as before, same evaluator, and its tree abstracts to the old abstraction with src renamed to dst *)
@@ -334,8 +341,8 @@ Section MoveCtor.
 
   (* the abstract half, for any operation that leaves the world in this shape: dst now has the value and updater src had, src is
      plain, nobody read dst, every binding that updates a property other than the old dst is as before up to the renaming *)
-  Lemma coh_renamed w w' s src dst s0 dn sn :
-    pinv w -> NOACT w -> SIMPLE w -> Rel w s -> AP.Inv F1 F2 F3 (ORD w) s [] -> pinv w' ->
+  Lemma coh_renamed_core w w' s src dst s0 dn sn :
+    pinv w -> SIMPLE w -> Rel w s -> AP.Inv F1 F2 F3 (ORD w) s [] -> pinv w' ->
     src <> dst -> lookup (w_props w) src = Some s0 ->
     (forall b lf, has_leaf w b lf -> lf_tg lf <> Some dst) ->
     pr_value dn = pr_value s0 -> pr_updater dn = pr_updater s0 -> pr_value sn = pr_value s0 -> pr_updater sn = None ->
@@ -346,9 +353,9 @@ Section MoveCtor.
                | Some x, Some x' => b_evp x' = b_evp x /\ abs_tree (b_root x') = option_map (aren (rn src dst)) (abs_tree (b_root x))
                | None, None => True
                | _, _ => False end) ->
-    SC w' /\ COH w'.
+    SIMPLE w' /\ COH w'.
   Proof.
-    intros Hinv Hna Hsi (R1 & R2 & R3) HInv Hinv' Hne Hs Hnr Vd Ud Vs Us PW Sw HB0.
+    intros Hinv Hsi (R1 & R2 & R3) HInv Hinv' Hne Hs Hnr Vd Ud Vs Us PW Sw HB0.
     (* a binding that updates a property other than dst is not the old updater of dst *)
     assert (HB : forall q pr b, q <> dst -> lookup (w_props w) q = Some pr -> pr_updater pr = Some b ->
                  match get_bind w b, get_bind w' b with
@@ -386,10 +393,8 @@ Section MoveCtor.
         + destruct Hq as (Hqs & x & Hx & Ea). destruct (Nat.eqb_spec q src); [contradiction|]. rewrite R2, Hx. symmetry. exact Ea.
         + destruct (Nat.eqb_spec q src) as [|Hqs]; [reflexivity|]. destruct Hq as [Hq|Hq]; [contradiction|]. rewrite R2, Hq. reflexivity. }
     split.
-    - split; [exact Hinv'|]. split.
-      + intros t pos ser label act Hsl. apply Sw in Hsl. eapply Hna; eauto.
-      + intros q x' Hx'. pose proof (IMM q) as Hq. rewrite Hx' in Hq. destruct Hq as (_ & x & Hx & Ea). rewrite Ea.
-        pose proof (Hsi _ _ Hx) as Hn. destruct (abs_tree (b_root x)); [discriminate|contradiction].
+    - intros q x' Hx'. pose proof (IMM q) as Hq. rewrite Hx' in Hq. destruct Hq as (_ & x & Hx & Ea). rewrite Ea.
+      pose proof (Hsi _ _ Hx) as Hn. destruct (abs_tree (b_root x)); [discriminate|contradiction].
     - exists s'. split; [exact Rel'|]. apply Inv_from_parts; [exact Hinv'|exact Rel'|].
       intros q t' Ht'. cbn [s' A.tr A.env] in Ht' |- *. destruct (Nat.eqb_spec q src) as [|Hqs]; [discriminate Ht'|].
       set (q0 := if Nat.eqb q dst then src else q) in *.
@@ -412,12 +417,32 @@ Section MoveCtor.
       unfold q0. destruct (Nat.eqb_spec q dst); reflexivity.
   Qed.
 
+  Lemma coh_renamed w w' s src dst s0 dn sn :
+    pinv w -> NOACT w -> SIMPLE w -> Rel w s -> AP.Inv F1 F2 F3 (ORD w) s [] -> pinv w' ->
+    src <> dst -> lookup (w_props w) src = Some s0 ->
+    (forall b lf, has_leaf w b lf -> lf_tg lf <> Some dst) ->
+    pr_value dn = pr_value s0 -> pr_updater dn = pr_updater s0 -> pr_value sn = pr_value s0 -> pr_updater sn = None ->
+    (forall q, lookup (w_props w') q = if Nat.eqb q dst then Some dn else if Nat.eqb q src then Some sn else lookup (w_props w) q) ->
+    (forall t pos ser s1, slot_at w' t pos ser s1 -> slot_at w t pos ser s1) ->
+    (forall b, (forall d0, lookup (w_props w) dst = Some d0 -> pr_updater d0 <> Some b) ->
+               match get_bind w b, get_bind w' b with
+               | Some x, Some x' => b_evp x' = b_evp x /\ abs_tree (b_root x') = option_map (aren (rn src dst)) (abs_tree (b_root x))
+               | None, None => True
+               | _, _ => False end) ->
+    SC w' /\ COH w'.
+  Proof.
+    intros Hinv Hna Hsi HRel HInv Hinv' Hne Hs Hnr Vd Ud Vs Us PW Sw HB0.
+    destruct (coh_renamed_core w w' s src dst s0 dn sn Hinv Hsi HRel HInv Hinv' Hne Hs Hnr Vd Ud Vs Us PW Sw HB0) as [Hsi' HC'].
+    split; [|exact HC']. split; [exact Hinv'|]. split; [|exact Hsi'].
+    intros t pos ser label act Hsl. apply Sw in Hsl. eapply Hna; eauto.
+  Qed.
+
   Lemma grow_movector fuel w src dst w' :
     SC w -> COH w -> NOEMIT w -> step1 fn rtl fuel w (PMoveCtor src dst) = (w', None) -> SC w' /\ COH w'.
   Proof.
     intros (Hinv & Hna & Hsi) (s & HRel & HInv) HNE H.
     pose proof (movector_pinv fn rtl fuel w src dst w' None Hinv HNE H I) as Hinv'.
-    destruct (movector_shape fuel w src dst w' Hinv Hna HNE H) as (s0 & dn & sn & Hs & Hd & Hne & Vd & Ud & Vs & Us & PW & Sw & HB & _).
+    destruct (movector_shape fuel w src dst w' Hinv HNE H) as (s0 & dn & sn & Hs & Hd & Hne & Vd & Ud & Vs & Us & PW & Sw & HB & _).
     apply (coh_renamed w w' s src dst s0 dn sn); auto.
     - intros b lf Hl Ht. apply (pi_leafx _ _ _ _ _ _ _ Hinv _ _ _ Hl Ht). unfold pview. rewrite Hd. reflexivity.
     - intros t pos ser s1 Hsl. apply Sw. exact Hsl.
@@ -429,7 +454,7 @@ Section MoveCtor.
 
   (* ---- move ASSIGNMENT over a destination that no binding reads ---- *)
   Lemma moveassign_shape fuel w dst src w' :
-    pinv w -> NOACT w -> NOEMIT w -> (forall b lf, has_leaf w b lf -> lf_tg lf <> Some dst) ->
+    pinv w -> NOEMIT w -> (forall b lf, has_leaf w b lf -> lf_tg lf <> Some dst) ->
     step1 fn rtl fuel w (PMoveAssign dst src) = (w', None) ->
     exists s0 d0 dn sn,
       lookup (w_props w) src = Some s0 /\ lookup (w_props w) dst = Some d0 /\ src <> dst /\
@@ -454,7 +479,7 @@ Section MoveCtor.
       | None => w_evps w' = w_evps w end /\
       length (w_binds w') = length (w_binds w).
   Proof.
-    intros Hinv Hna HNE Hnr H. cbn [step1] in H.
+    intros Hinv HNE Hnr H. cbn [step1] in H.
     destruct (lookup (w_props w) src) as [s0|] eqn:Hs; [|discriminate H].
     destruct (lookup (w_props w) dst) as [d0|] eqn:Hd; [|discriminate H].
     destruct (Nat.eqb_spec src dst) as [|Hne]; [discriminate H|].
@@ -549,11 +574,12 @@ Section MoveCtor.
     rewrite Pk, Pc, Hd5, Hs5 in H. inversion H; subst w'; clear H.
     match goal with |- exists _ _ _ _, _ /\ _ /\ _ /\ _ /\ _ /\ _ /\ _ /\ (forall q, lookup (w_props ?W) q = _) /\ _ => set (w' := W) in * end.
     assert (Twa : forall t, tview wa t = tview w4 t) by (intros t; unfold wa, fixtarget; destruct (pr_updater d') as [bu|]; [destruct (get_bind w5 bu)|]; reflexivity).
-    assert (NAa : forall ot t pos ser label act, ot = Some t -> slot_at wa t pos ser (SObs label act) -> act = None).
-    { intros ot t pos ser label act _ (sl & fr & al & Et & En). apply (Hna t pos ser label act). apply S4. exists sl, fr, al. split; [rewrite <- Twa; exact Et|exact En]. }
-    destruct (emit_moved_skel fn rtl (set_helper fn rtl fuel) wa (pr_moved d0) dst dst wb (NAa _) E1) as (SKb & Pb & Twb & Evb).
+    assert (NAa : forall q0 pr0 t pos ser label act, lookup (w_props w) q0 = Some pr0 -> pr_moved pr0 = Some t -> slot_at wa t pos ser (SObs label act) -> act = None).
+    { intros q0 pr0 t pos ser label act Hq0 Eot (sl & fr & al & Et & En). apply (quiet_moved w q0 t pos ser label act Hinv); [exists (psigs_of pr0); split; [unfold pview; rewrite Hq0; reflexivity|exact Eot]|].
+      apply S4. exists sl, fr, al. split; [rewrite <- Twa; exact Et|exact En]. }
+    destruct (emit_moved_skel fn rtl (set_helper fn rtl fuel) wa (pr_moved d0) dst dst wb (fun t pos ser label act Eot Hsl => NAa dst d0 t pos ser label act Hd Eot Hsl) E1) as (SKb & Pb & Twb & Evb).
     assert (NAb : forall t pos ser label act, pr_moved s0 = Some t -> slot_at wb t pos ser (SObs label act) -> act = None).
-    { intros t pos ser label act Ht (sl & fr & al & Et & En). apply (NAa (Some t) t pos ser label act eq_refl). exists sl, fr, al. split; [rewrite <- Twb; exact Et|exact En]. }
+    { intros t pos ser label act Ht (sl & fr & al & Et & En). apply (NAa src s0 t pos ser label act Hs Ht). exists sl, fr, al. split; [rewrite <- Twb; exact Et|exact En]. }
     destruct (emit_moved_skel fn rtl (set_helper fn rtl fuel) wb (pr_moved s0) dst dst wc NAb E2) as (SKc & _ & _ & Evc).
     pose proof (SKB_trans _ _ _ SKb SKc) as SKac.
     set (dn := prop_set_sig d' KMoved (pr_moved (moved_from s0))) in *. set (sn := prop_set_sig (moved_from s0) KMoved None) in *.
@@ -609,7 +635,7 @@ Section MoveCtor.
   Proof.
     intros (Hinv & Hna & Hsi) (s & HRel & HInv) HNE Hnr H.
     pose proof (moveassign_pinv fn rtl fuel w dst src w' None Hinv HNE H I) as Hinv'.
-    destruct (moveassign_shape fuel w dst src w' Hinv Hna HNE Hnr H) as (s0 & d0 & dn & sn & Hs & Hd & Hne & Vd & Ud & Vs & Us & PW & Sw & HB & _).
+    destruct (moveassign_shape fuel w dst src w' Hinv HNE Hnr H) as (s0 & d0 & dn & sn & Hs & Hd & Hne & Vd & Ud & Vs & Us & PW & Sw & HB & _).
     apply (coh_renamed w w' s src dst s0 dn sn); auto.
     intros b Hb. apply HB. apply Hb. exact Hd.
   Qed.
